@@ -35,7 +35,11 @@ struct Position
 
 static const char* call_name(int c) { return c == 0 ? "init" : (c == 1 ? "compute" : "eigenvectors"); }
 
-static int expected_exc(int type) { return type == FT_RUNTIME ? X_SIMRUNTIME : (type == FT_INT ? X_INT : X_SIMFAULT); }
+static int expected_exc(int type)
+{
+    if (type == FT_POISON) return X_RUNTIME;  // thrown by the library's own SparseRegularInverse::solve()
+    return type == FT_RUNTIME ? X_SIMRUNTIME : (type == FT_INT ? X_INT : X_SIMFAULT);
+}
 
 struct Enumerator
 {
@@ -108,6 +112,7 @@ struct Enumerator
         bool fired = false;
         auto faulted_sequence = [&](const Fault& ff, int call, const Fault* extra) -> bool {
             // returns true if the armed fault fired (and checks that it propagated unchanged)
+            const long native0 = S.world->ctlB.native_throws;
             Op i = op_init, c = op_comp;
             if (call == 0) i.faults.push_back(ff);
             if (call == 1) c.faults.push_back(ff);
@@ -147,6 +152,17 @@ struct Enumerator
             {
                 const OpRecord& r = (call == 0) ? ri : rc;
                 if (r.fired[extra->target] && !r.fired[ff.target]) etype = extra->type;
+            }
+            if (ff.type == FT_POISON)
+            {
+                // the A-operator returned NaN; the B-operator of this mode is the REAL SparseRegularInverse behind the seam.
+                // The property speaks about an operator that throws: a verdict is given only if the real wrapper did throw
+                if (S.world->ctlB.native_throws == native0)
+                {
+                    out.stats.add("fault.poison_without_native_throw");
+                    return false;
+                }
+                out.stats.add("fault.fired.native_B_solve");
             }
             if (!thrower)
             {
@@ -281,6 +297,23 @@ RunOutput run_fault(const Plan& plan, const RunOpts&)
                             positions.push_back(p);
                         }
                     }
+                // RegularInverse mode: every A-application once more with a silently poisoned output, which makes the library's
+                // own B-wrapper (SparseRegularInverse, conjugate gradients) fail and throw from real code
+                if (spec.family == F_GREGINV)
+                    for (int c = 0; c < 2; c++)
+                    {
+                        const long N = E.base.N[0][c];
+                        const long stride = N > cap ? (N + cap - 1) / cap : 1;
+                        for (long k = 1; k <= N; k += stride)
+                        {
+                            Position p;
+                            p.target = 0;
+                            p.call = c;
+                            p.k = k;
+                            p.type = FT_POISON;
+                            positions.push_back(p);
+                        }
+                    }
                 // sampled pairs
                 const long npairs = plan.params.geti("pairs", 20);
                 std::vector<std::pair<int, int>> sites;
@@ -321,6 +354,8 @@ RunOutput run_fault(const Plan& plan, const RunOpts&)
             for (const char* t : {"A", "B"})
                 for (const char* c : {"init", "compute", "eigenvectors"}) out.stats.add(std::string("fault.fired.") + t + "." + c, 0);
             out.stats.add("fault.not_fired", 0);
+            out.stats.add("fault.poison_without_native_throw", 0);
+            out.stats.add("fault.fired.native_B_solve", 0);
             out.stats.add("fault.fired.second_in_recovery", 0);
             out.stats.add("positions", 0);
             out.stats.add("alloc.balance_checked", 0);
